@@ -74,8 +74,7 @@ func (x *Exec) callStatic(cs *callSite, callee *ssa.Function, bindings []*Val) *
 		return m(x, cs)
 	}
 	if strings.HasPrefix(key, "github.com/indexsupply/shovel/wctx.") {
-		x.assumeNote("wctx.* (context value accessors) summarised as effect-free, non-panicking functions with unconstrained results")
-		return x.freshResult(cs.st, "wctx", cs.res)
+		return x.wctxModel(cs, strings.TrimPrefix(key, "github.com/indexsupply/shovel/wctx."))
 	}
 	if c := x.w.contractOf(callee); c != nil {
 		return x.applyContract(cs, callee, c)
